@@ -556,3 +556,577 @@ Section Grouping.
              ++ destruct (seqb s key); [|discriminate]. inversion Hs. congruence.
   Qed.
 End Grouping.
+Section GroupPairs.
+  Variable evn : node -> ovalue -> M ovalue.
+  Variable ev : node -> ovalue -> ovalue.
+  Hypothesis Hpure : pure_evn evn ev.
+  Variable items : list ovalue.
+
+  Lemma all_keys_app ps1 ps2 : all_keys ev items (ps1 ++ ps2) = all_keys ev items ps1 ++ all_keys ev items ps2.
+  Proof. unfold all_keys. apply flat_map_app. Qed.
+
+  Lemma groups_spec_nil : groups_spec ev items [] [].
+  Proof.
+    split; [reflexivity|]. intros s p idxs. split; [discriminate|].
+    intros (k & v & H & _). destruct p; discriminate.
+  Qed.
+
+  (** adding the groups of one more pair *)
+  Lemma groups_spec_extend pre acc k v acc' :
+    groups_spec ev items pre acc ->
+    map fst acc' = map fst acc ++ nodup_str_acc (map fst acc) (pair_keys ev items k) ->
+    (forall s, In s (pair_keys ev items k) ->
+               assoc_get s acc' = Some (List.length pre, pair_idxs ev items k s)) ->
+    (forall s, ~ In s (pair_keys ev items k) -> assoc_get s acc' = assoc_get s acc) ->
+    (forall s, In s (pair_keys ev items k) -> assoc_get s acc = None) ->
+    groups_spec ev items (pre ++ [(k, v)]) acc'.
+  Proof.
+    intros [HK HG] HK' Hin Hout Hfresh. split.
+    - rewrite all_keys_app, nodup_str_app, <- HK, HK'. unfold all_keys. simpl.
+      now rewrite app_nil_r.
+    - intros s p idxs. split.
+      + intro Hs. destruct (in_dec string_dec s (pair_keys ev items k)) as [I|NI].
+        * rewrite (Hin s I) in Hs. inversion Hs; subst. exists k, v.
+          rewrite nth_error_app2, Nat.sub_diag by lia. auto.
+        * rewrite (Hout s NI) in Hs. apply HG in Hs as (k0 & v0 & Hn & Hp & Hi).
+          exists k0, v0. rewrite nth_error_app1; [auto|]. apply nth_error_Some. congruence.
+      + intros (k0 & v0 & Hn & Hp & Hi).
+        destruct (Nat.lt_ge_cases p (List.length pre)) as [L|L].
+        * rewrite nth_error_app1 in Hn by assumption.
+          assert (Hs : assoc_get s acc = Some (p, idxs)) by (apply HG; eauto).
+          rewrite Hout; [assumption|]. intro I. rewrite (Hfresh s I) in Hs. discriminate.
+        * rewrite nth_error_app2 in Hn by assumption.
+          destruct (p - List.length pre) as [|d] eqn:Ed; simpl in Hn.
+          -- inversion Hn; subst k0 v0. assert (p = List.length pre) by lia. subst p.
+             rewrite Hi. now apply Hin.
+          -- destruct d; discriminate.
+  Qed.
+
+  Lemma groups_spec_lt pre acc s p idxs :
+    groups_spec ev items pre acc -> assoc_get s acc = Some (p, idxs) -> p < List.length pre.
+  Proof.
+    intros [_ HG] Hs. apply HG in Hs as (k & v & Hn & _). apply nth_error_Some. congruence.
+  Qed.
+
+  Lemma hits_pair_idxs k s :
+    is_literal k = false -> hits (ev k) items 0 s = pair_idxs ev items k s.
+  Proof.
+    intro L. pose proof (hits_filter (ev k) items [] s) as H. simpl in H. rewrite H.
+    destruct k; try reflexivity. discriminate.
+  Qed.
+
+  Lemma pair_keys_nonlit k : is_literal k = false -> pair_keys ev items k = key_strs (map (ev k) items).
+  Proof. destruct k; try reflexivity. discriminate. Qed.
+
+  Definition gp_post (pre ps : list (node * node)) (w : world) (r : res groups_t) : Prop :=
+    match r with
+    | Ok g w' => w' = w /\ groups_spec ev items (pre ++ ps) g /\ ~ illegal_key ev items ps
+    | Err e => (e = EEval ErrIllegalKey /\ illegal_key ev items ps) \/
+               (e = EEval ErrDuplicateKey /\ duplicate_key ev items (pre ++ ps))
+    | _ => False
+    end.
+
+  Lemma illegal_key_cons_lit k v ps :
+    is_literal k = true -> illegal_key ev items ((k, v) :: ps) -> illegal_key ev items ps.
+  Proof.
+    intros L (k0 & v0 & it & [H|H] & Hl & Hi & Hs).
+    - inversion H; subst. congruence.
+    - exists k0, v0, it. auto.
+  Qed.
+
+  Lemma illegal_key_tl k v ps : illegal_key ev items ps -> illegal_key ev items ((k, v) :: ps).
+  Proof. intros (k0 & v0 & it & H & R). exists k0, v0, it. split; [now right|exact R]. Qed.
+
+  Lemma group_pairs_post ps : forall pre acc w,
+    groups_spec ev items pre acc ->
+    gp_post pre ps w (group_pairs evn items ps (List.length pre) acc w).
+  Proof.
+    induction ps as [|[k v] rest IH]; intros pre acc w Hinv.
+    - simpl. rewrite app_nil_r. split; [reflexivity|]. split; [assumption|].
+      intros (k & v & it & [] & _).
+    - assert (Hlen : S (List.length pre) = List.length (pre ++ [(k, v)]))
+        by (rewrite app_length; simpl; lia).
+      assert (Happ : pre ++ (k, v) :: rest = (pre ++ [(k, v)]) ++ rest)
+        by (now rewrite <- app_assoc).
+      assert (Hnth : nth_error (pre ++ (k, v) :: rest) (List.length pre) = Some (k, v))
+        by (rewrite nth_error_app2, Nat.sub_diag by lia; reflexivity).
+      destruct (is_literal k) eqn:Lk.
+      + destruct k; try discriminate. cbn [group_pairs].
+        destruct (assoc_get s acc) as [[p idxs]|] eqn:Ea.
+        * right. split; [reflexivity|].
+          pose proof (groups_spec_lt _ _ _ _ _ Hinv Ea) as Lp.
+          destruct Hinv as [_ HG]. apply HG in Ea as (k1 & v1 & Hn & Hp & _).
+          exists p, (List.length pre), k1, v1, (NString s), v, s.
+          split; [lia|]. split; [rewrite nth_error_app1; assumption|].
+          split; [assumption|]. split; [assumption|]. now left.
+        * assert (Hinv' : groups_spec ev items (pre ++ [(NString s, v)])
+                                      (acc ++ [(s, (List.length pre, []))])).
+          { apply groups_spec_extend with (acc := acc); auto.
+            - rewrite map_app. simpl.
+              assert (E : existsb (seqb s) (map fst acc) = false).
+              { destruct (existsb (seqb s) (map fst acc)) eqn:E; [|reflexivity].
+                apply existsb_seqb_In in E. apply assoc_get_None in Ea. contradiction. }
+              now rewrite E.
+            - intros s0 [<-|[]]. rewrite assoc_get_app, Ea. simpl. now rewrite seqb_refl.
+            - intros s0 NI. rewrite assoc_get_app. destruct (assoc_get s0 acc); [reflexivity|].
+              simpl. destruct (seqb s0 s) eqn:E; [|reflexivity].
+              apply seqb_eq in E. subst. exfalso. apply NI. now left.
+            - intros s0 [<-|[]]. assumption. }
+          specialize (IH _ _ w Hinv'). rewrite <- Hlen in IH.
+          destruct (group_pairs evn items rest (S (List.length pre)) (acc ++ [(s, (List.length pre, []))]) w)
+            as [g w'|e| | |]; unfold gp_post in *; rewrite ?Happ; try assumption.
+          -- destruct IH as (Hw & HS & HI). split; [assumption|]. split; [assumption|].
+             intro F. apply HI. eapply illegal_key_cons_lit; eauto.
+          -- destruct IH as [[He HI]|[He HD]]; [left|right]; split; auto.
+             now apply illegal_key_tl.
+      + assert (Hgp : group_pairs evn items ((k, v) :: rest) (List.length pre) acc w =
+                      bind (group_items evn k (List.length pre) items 0 acc)
+                           (fun acc' => group_pairs evn items rest (S (List.length pre)) acc') w)
+          by (destruct k; try reflexivity; discriminate).
+        rewrite Hgp. unfold bind.
+        pose proof (group_items_post evn ev Hpure k (List.length pre) items 0 acc w) as GI.
+        destruct (group_items evn k (List.length pre) items 0 acc w) as [acc' w'|e| | |];
+          unfold gi_post in GI; try contradiction.
+        * destruct GI as (Hw & HF & HK & HG & HP). subst w'.
+          assert (Hfresh : forall s, In s (pair_keys ev items k) -> assoc_get s acc = None).
+          { intros s I. rewrite pair_keys_nonlit in I by assumption.
+            destruct (assoc_get s acc) as [[p idxs]|] eqn:Es; [|reflexivity].
+            pose proof (HP _ _ _ Es I). pose proof (groups_spec_lt _ _ _ _ _ Hinv Es). lia. }
+          assert (Hinv' : groups_spec ev items (pre ++ [(k, v)]) acc').
+          { apply groups_spec_extend with (acc := acc); auto.
+            - now rewrite pair_keys_nonlit.
+            - intros s I. rewrite HG, (Hfresh s I), hits_pair_idxs by assumption.
+              rewrite pair_keys_nonlit in I by assumption.
+              apply hits_nonempty with (j := 0) in I. rewrite hits_pair_idxs in I by assumption.
+              destruct (pair_idxs ev items k s); [contradiction|reflexivity].
+            - intros s NI. rewrite HG. rewrite pair_keys_nonlit in NI by assumption.
+              assert (E : hits (ev k) items 0 s = []).
+              { destruct (hits (ev k) items 0 s) eqn:E; [reflexivity|].
+                exfalso. apply NI. apply (hits_nonempty (ev k) items 0 s). rewrite E. discriminate. }
+              rewrite E. destruct (assoc_get s acc) as [[p idxs]|]; [now rewrite app_nil_r|reflexivity]. }
+          specialize (IH _ _ w Hinv'). rewrite <- Hlen in IH.
+          destruct (group_pairs evn items rest (S (List.length pre)) acc' w)
+            as [g w'|e| | |]; unfold gp_post in *; rewrite ?Happ; try assumption.
+          -- destruct IH as (Hw & HS & HI). split; [assumption|]. split; [assumption|].
+             intros (k0 & v0 & it & [H|H] & Hl & Hi & Hs).
+             ++ inversion H; subst k0 v0. rewrite Forall_forall in HF. rewrite (HF _ Hi) in Hs. discriminate.
+             ++ apply HI. exists k0, v0, it. auto.
+          -- destruct IH as [[He HI]|[He HD]]; [left|right]; split; auto.
+             now apply illegal_key_tl.
+        * destruct GI as [[He HE]|[He (s & p & idxs & Hin & Hs & Hp)]].
+          -- left. split; [assumption|]. apply Exists_exists in HE as (it & Hi & Hs).
+             exists k, v, it. split; [now left|auto].
+          -- right. split; [assumption|].
+             pose proof (groups_spec_lt _ _ _ _ _ Hinv Hs) as Lp.
+             destruct Hinv as [_ HG]. apply HG in Hs as (k1 & v1 & Hn & Hpr & _).
+             exists p, (List.length pre), k1, v1, k, v, s.
+             split; [lia|]. split; [rewrite nth_error_app1; assumption|].
+             split; [assumption|]. split; [assumption|].
+             unfold produces. now rewrite pair_keys_nonlit.
+  Qed.
+
+  (** *** Main theorems on grouping *)
+
+  (** success: the table is exactly the declarative grouping *)
+  Theorem group_pairs_spec ps w g w' :
+    group_pairs evn items ps 0 [] w = Ok g w' ->
+    w' = w /\ groups_spec ev items ps g /\ ~ illegal_key ev items ps.
+  Proof.
+    intro H. pose proof (group_pairs_post ps [] [] w groups_spec_nil) as P.
+    simpl in P. rewrite H in P. exact P.
+  Qed.
+
+  Lemma groups_spec_no_dup ps g : groups_spec ev items ps g -> ~ duplicate_key ev items ps.
+  Proof.
+    intros [_ HG] (p1 & p2 & k1 & v1 & k2 & v2 & s & Hne & H1 & H2 & P1 & P2).
+    assert (E1 : assoc_get s g = Some (p1, pair_idxs ev items k1 s)) by (apply HG; eauto).
+    assert (E2 : assoc_get s g = Some (p2, pair_idxs ev items k2 s)) by (apply HG; eauto).
+    congruence.
+  Qed.
+
+  (** the outcome of grouping is a table or one of the two key errors (the sub-evaluator
+      being pure), and each error implies its situation *)
+  Theorem group_pairs_outcome ps w :
+    (exists g, group_pairs evn items ps 0 [] w = Ok g w) \/
+    (group_pairs evn items ps 0 [] w = Err (EEval ErrIllegalKey) /\ illegal_key ev items ps) \/
+    (group_pairs evn items ps 0 [] w = Err (EEval ErrDuplicateKey) /\ duplicate_key ev items ps).
+  Proof.
+    pose proof (group_pairs_post ps [] [] w groups_spec_nil) as P. simpl in P.
+    destruct (group_pairs evn items ps 0 [] w) as [g w'|e| | |]; try contradiction.
+    - destruct P as (-> & _). left. eauto.
+    - destruct P as [[-> H]|[-> H]]; auto.
+  Qed.
+
+  (** C14_errors *)
+  Theorem C14_errors ps w :
+    let r := group_pairs evn items ps 0 [] w in
+    (* success implies neither situation *)
+    (forall g w', r = Ok g w' -> ~ illegal_key ev items ps /\ ~ duplicate_key ev items ps) /\
+    (* each error implies its situation *)
+    (r = Err (EEval ErrIllegalKey) -> illegal_key ev items ps) /\
+    (r = Err (EEval ErrDuplicateKey) -> duplicate_key ev items ps) /\
+    (* either situation makes grouping fail with one of the two errors *)
+    (illegal_key ev items ps \/ duplicate_key ev items ps ->
+     r = Err (EEval ErrIllegalKey) \/ r = Err (EEval ErrDuplicateKey)) /\
+    (* exactly the stated error when only one situation is present *)
+    (~ duplicate_key ev items ps -> (r = Err (EEval ErrIllegalKey) <-> illegal_key ev items ps)) /\
+    (~ illegal_key ev items ps -> (r = Err (EEval ErrDuplicateKey) <-> duplicate_key ev items ps)).
+  Proof.
+    intro r.
+    assert (Hok : forall g w', r = Ok g w' -> ~ illegal_key ev items ps /\ ~ duplicate_key ev items ps).
+    { intros g w' H. apply group_pairs_spec in H as (_ & HS & HI). split; [assumption|].
+      eapply groups_spec_no_dup; eauto. }
+    pose proof (group_pairs_outcome ps w) as O. fold r in O.
+    assert (H1 : r = Err (EEval ErrIllegalKey) -> illegal_key ev items ps).
+    { intro H. destruct O as [(g & E)|[[E I]|[E D]]]; [congruence|assumption|congruence]. }
+    assert (H2 : r = Err (EEval ErrDuplicateKey) -> duplicate_key ev items ps).
+    { intro H. destruct O as [(g & E)|[[E I]|[E D]]]; [congruence|congruence|assumption]. }
+    assert (H3 : illegal_key ev items ps \/ duplicate_key ev items ps ->
+                 r = Err (EEval ErrIllegalKey) \/ r = Err (EEval ErrDuplicateKey)).
+    { intro H. destruct O as [(g & E)|[[E I]|[E D]]]; [|auto|auto].
+      destruct (Hok _ _ E). tauto. }
+    split; [exact Hok|]. split; [exact H1|]. split; [exact H2|]. split; [exact H3|]. split.
+    - intro ND. split; [exact H1|]. intro I.
+      destruct (H3 (or_introl I)) as [E|E]; [assumption|]. exfalso. auto.
+    - intro NI. split; [exact H2|]. intro D.
+      destruct (H3 (or_intror D)) as [E|E]; [|assumption]. exfalso. auto.
+  Qed.
+End GroupPairs.
+
+Print Assumptions group_pairs_spec.
+Print Assumptions C14_errors.
+(* ================================================================================== *)
+(** * 4. The partition law *)
+
+Lemma filter_all {A} (f : A -> bool) l : (forall x, In x l -> f x = true) -> filter f l = l.
+Proof.
+  induction l as [|a r IH]; intro H; simpl; [reflexivity|].
+  rewrite (H a (or_introl eq_refl)). f_equal. apply IH. intros x I. apply H. now right.
+Qed.
+
+Lemma filter_map_swap {A B} (f : B -> bool) (g : A -> B) l :
+  filter f (map g l) = map g (filter (fun x => f (g x)) l).
+Proof.
+  induction l as [|a r IH]; simpl; [reflexivity|]. destruct (f (g a)); simpl; now rewrite IH.
+Qed.
+
+Lemma map_nth_seq {A} (l : list A) d : map (fun j => nth j l d) (seq 0 (List.length l)) = l.
+Proof.
+  induction l as [|a r IH]; simpl; [reflexivity|]. f_equal.
+  rewrite <- seq_shift, map_map. exact IH.
+Qed.
+
+Lemma filter_length_le' {A} (f : A -> bool) l : List.length (filter f l) <= List.length l.
+Proof. induction l as [|a r IH]; simpl; [lia|]. destruct (f a); simpl; lia. Qed.
+
+Lemma filter_length_all {A} (f : A -> bool) l : List.length (filter f l) = List.length l -> filter f l = l.
+Proof.
+  induction l as [|a r IH]; simpl; [reflexivity|].
+  destruct (f a); simpl; intro H.
+  - f_equal. apply IH. lia.
+  - pose proof (filter_length_le' f r). lia.
+Qed.
+
+Lemma filter_disjoint_perm {A} (p q : A -> bool) l :
+  (forall x, In x l -> p x = true -> q x = false) ->
+  Permutation (filter p l ++ filter q l) (filter (fun x => p x || q x) l).
+Proof.
+  induction l as [|a r IH]; intro H; simpl; [constructor|].
+  assert (IH' : Permutation (filter p r ++ filter q r) (filter (fun x => p x || q x) r))
+    by (apply IH; intros x I; apply H; now right).
+  destruct (p a) eqn:Ep; simpl.
+  - rewrite (H a (or_introl eq_refl) Ep). now constructor.
+  - destruct (q a); simpl; [|assumption].
+    apply Permutation_sym. apply Permutation_cons_app. now apply Permutation_sym.
+Qed.
+
+Lemma flat_map_filter_perm {A} (F : string -> A -> bool) l ks :
+  (forall s1 s2 x, F s1 x = true -> F s2 x = true -> s1 = s2) ->
+  NoDup ks ->
+  Permutation (flat_map (fun s => filter (F s) l) ks)
+              (filter (fun x => existsb (fun s => F s x) ks) l).
+Proof.
+  intros Hinj. induction ks as [|s ks IH]; intro ND; simpl.
+  - induction l; simpl; auto.
+  - inversion ND as [|? ? NI ND']; subst.
+    eapply Permutation_trans; [apply Permutation_app_head, IH, ND'|].
+    apply filter_disjoint_perm. intros x _ Hs.
+    destruct (existsb (fun s0 => F s0 x) ks) eqn:E; [|reflexivity].
+    apply existsb_exists in E as (s' & I & Hs'). rewrite (Hinj _ _ _ Hs Hs') in NI. contradiction.
+Qed.
+
+Lemma NoDup_map_filter {A B} (g : A -> B) (f : A -> bool) l : NoDup (map g l) -> NoDup (map g (filter f l)).
+Proof.
+  induction l as [|a r IH]; simpl; intro ND; [constructor|].
+  inversion ND as [|? ? NI ND']; subst.
+  destruct (f a); simpl; [|auto]. constructor; [|auto].
+  intro I. apply NI. apply in_map_iff in I as (x & E & I). apply filter_In in I as [I _].
+  apply in_map_iff. eauto.
+Qed.
+
+Section Partition.
+  Variable ev : node -> ovalue -> ovalue.
+  Variable items : list ovalue.
+
+  Lemma groups_NoDup ps g : groups_spec ev items ps g -> NoDup (map fst g).
+  Proof. intros [HK _]. rewrite HK. apply nodup_str_NoDup. Qed.
+
+  (** the key set of the table is exactly the set of key strings produced *)
+  Theorem groups_key_set ps g s :
+    groups_spec ev items ps g ->
+    (In s (map fst g) <-> exists k v, In (k, v) ps /\ produces ev items k s).
+  Proof.
+    intros [HK _]. rewrite HK, nodup_str_In. unfold all_keys. rewrite in_flat_map. split.
+    - intros ([k v] & I & P). eauto.
+    - intros (k & v & I & P). exists (k, v). auto.
+  Qed.
+
+  (** membership form of the table characterisation *)
+  Theorem groups_members ps g s p idxs :
+    groups_spec ev items ps g ->
+    (In (s, (p, idxs)) g <->
+     exists k v, nth_error ps p = Some (k, v) /\ produces ev items k s /\ idxs = pair_idxs ev items k s).
+  Proof.
+    intro HS. pose proof (groups_NoDup _ _ HS) as ND. destruct HS as [_ HG].
+    rewrite <- HG. split; [now apply In_assoc_get|apply assoc_get_In].
+  Qed.
+
+  (** every item index lands in exactly one group of a non-literal pair whose keys are all
+      strings: the groups of the pair partition [0..n) *)
+  Theorem C14_partition ps g p k v :
+    groups_spec ev items ps g ->
+    nth_error ps p = Some (k, v) -> is_literal k = false ->
+    (forall it, In it items -> is_str (ev k it) = true) ->
+    Permutation (List.concat (map (fun e => snd (snd e)) (filter (fun e => fst (snd e) =? p) g)))
+                (seq 0 (List.length items)).
+  Proof.
+    intros HS Hn Lk Hstr.
+    set (gp := filter (fun e : string * (nat * list nat) => fst (snd e) =? p) g).
+    set (F := fun (s : string) (j : nat) => is_key (ev k (nth j items None)) s).
+    set (L := seq 0 (List.length items)).
+    assert (Hpi : forall s, pair_idxs ev items k s = filter (F s) L)
+      by (intro s; destruct k; try reflexivity; discriminate).
+    assert (E1 : map (fun e => snd (snd e)) gp = map (fun s => filter (F s) L) (map fst gp)).
+    { rewrite map_map. apply map_ext_in. intros [s [p' idxs]] I. simpl.
+      apply filter_In in I as [I Ep]. simpl in Ep. apply Nat.eqb_eq in Ep. subst p'.
+      apply (groups_members _ _ _ _ _ HS) in I as (k' & v' & Hn' & _ & Hi).
+      rewrite Hn in Hn'. inversion Hn'; subst k' v'. now rewrite Hi, Hpi. }
+    rewrite E1, <- flat_map_concat_map.
+    eapply Permutation_trans.
+    - apply flat_map_filter_perm.
+      + intros s1 s2 j H1 H2. unfold F, is_key in *.
+        destruct (ev k (nth j items None)) as [[| | |s'| | |]|]; try discriminate.
+        apply seqb_eq in H1, H2. congruence.
+      + apply NoDup_map_filter. eapply groups_NoDup; eauto.
+    - rewrite filter_all; [apply Permutation_refl|].
+      intros j Ij. unfold L in Ij. apply in_seq in Ij.
+      assert (Iit : In (nth j items None) items) by (apply nth_In; lia).
+      pose proof (Hstr _ Iit) as Hs. unfold is_str in Hs.
+      destruct (ev k (nth j items None)) as [[| | |s| | |]|] eqn:Ek; try discriminate.
+      apply existsb_exists. exists s. split.
+      + assert (P : produces ev items k s).
+        { unfold produces. destruct k; try discriminate; simpl;
+            unfold key_strs; apply in_flat_map; (eexists; split; [apply in_map; exact Iit|]);
+            rewrite Ek; now left. }
+        assert (I : In (s, (p, pair_idxs ev items k s)) g)
+          by (apply (groups_members _ _ _ _ _ HS); eauto).
+        apply in_map_iff. exists (s, (p, pair_idxs ev items k s)). split; [reflexivity|].
+        apply filter_In. split; [assumption|]. simpl. apply Nat.eqb_refl.
+      + unfold F. rewrite Ek. simpl. apply seqb_refl.
+  Qed.
+
+  (** the index list of a group, read as items, is the sub-sequence of the items having that key *)
+  Lemma pair_idxs_items k s :
+    is_literal k = false ->
+    map (fun j => nth j items None) (pair_idxs ev items k s) = group_of ev items k s.
+  Proof.
+    intro Lk.
+    assert (E : pair_idxs ev items k s =
+                filter (fun j => is_key (ev k (nth j items None)) s) (seq 0 (List.length items)))
+      by (destruct k; try reflexivity; discriminate).
+    assert (E' : group_of ev items k s = filter (fun it => is_key (ev k it) s) items)
+      by (destruct k; try reflexivity; discriminate).
+    rewrite E, E'.
+    rewrite <- (filter_map_swap (fun it => is_key (ev k it) s) (fun j => nth j items None)).
+    now rewrite map_nth_seq.
+  Qed.
+End Partition.
+
+Print Assumptions C14_partition.
+(* ================================================================================== *)
+(** * 5. [group_items] alone, and [object_with] *)
+
+Lemma insert_by_perm {A} (lt : A -> A -> bool) x l : Permutation (insert_by lt x l) (x :: l).
+Proof.
+  induction l as [|y r IH]; simpl; [apply Permutation_refl|].
+  destruct (lt y x); [|apply Permutation_refl].
+  eapply Permutation_trans; [apply perm_skip, IH|apply perm_swap].
+Qed.
+
+Lemma stable_sort_perm {A} (lt : A -> A -> bool) l : Permutation (stable_sort lt l) l.
+Proof.
+  induction l as [|x r IH]; simpl; [constructor|].
+  eapply Permutation_trans; [apply insert_by_perm|]. now constructor.
+Qed.
+
+Lemma flat_map_keys {A} (f : string * A -> list (string * value)) (l : list (string * A)) :
+  (forall e, In e l -> f e = [] \/ exists x, f e = [(fst e, x)]) ->
+  forall s, In s (map fst (flat_map f l)) -> In s (map fst l).
+Proof.
+  intros H s I. apply in_map_iff in I as ([s' x] & <- & I). apply in_flat_map in I as (e & Ie & If).
+  destruct (H e Ie) as [E|(y & E)]; rewrite E in If; [contradiction|].
+  destruct If as [If|[]]. inversion If; subst. simpl. now apply in_map.
+Qed.
+
+Lemma flat_map_keys_NoDup {A} (f : string * A -> list (string * value)) (l : list (string * A)) :
+  NoDup (map fst l) ->
+  (forall e, In e l -> f e = [] \/ exists x, f e = [(fst e, x)]) ->
+  NoDup (map fst (flat_map f l)).
+Proof.
+  induction l as [|e r IH]; simpl; intros ND H; [constructor|].
+  inversion ND as [|? ? NI ND']; subst.
+  assert (IH' : NoDup (map fst (flat_map f r))) by (apply IH; auto).
+  destruct (H e (or_introl eq_refl)) as [E|(y & E)]; rewrite E; simpl; [assumption|].
+  constructor; [|assumption]. intro I. apply NI. eapply flat_map_keys; [|exact I]. auto.
+Qed.
+
+Section ObjectWith.
+  Variable evn : node -> ovalue -> M ovalue.
+  Variable ev : node -> ovalue -> ovalue.
+  Hypothesis Hpure : pure_evn evn ev.
+
+  (** grouping by one key expression, from an empty table *)
+  Theorem group_items_spec k i items w g w' :
+    group_items evn k i items 0 [] w = Ok g w' ->
+    w' = w /\
+    (forall it, In it items -> is_str (ev k it) = true) /\
+    map fst g = nodup_str (key_strs (map (ev k) items)) /\
+    forall s, assoc_get s g =
+              match filter (fun j => is_key (ev k (nth j items None)) s) (seq 0 (List.length items)) with
+              | [] => None
+              | h => Some (i, h)
+              end.
+  Proof.
+    intro H. pose proof (group_items_post evn ev Hpure k i items 0 [] w) as P.
+    rewrite H in P. destruct P as (Hw & HF & HK & HG & _).
+    split; [assumption|]. split; [now apply Forall_forall|]. split; [exact HK|].
+    intro s. rewrite HG. simpl. pose proof (hits_filter (ev k) items [] s) as E. simpl in E.
+    now rewrite E.
+  Qed.
+
+  (** the member contributed by one group, computed purely *)
+  Definition member_of (pairs : list (node * node)) (items : list ovalue) (g : string * (nat * list nat))
+    : list (string * value) :=
+    let '(key, (p, idxs)) := g in
+    let sel : list ovalue :=
+      let n := List.length idxs in
+      if negb (n =? 0) && negb (n =? List.length items)
+      then map (fun j => nth j items None) idxs
+      else items in
+    match nth_error pairs p with
+    | Some (_, vn) => match ev vn (group_arg sel) with Some x => [(key, x)] | None => [] end
+    | None => []
+    end.
+
+  Lemma object_with_unfold pairs data w :
+    object_with evn pairs data w =
+    match group_pairs evn (ctx_items data) pairs 0 [] w with
+    | Ok g w1 =>
+        Ok (Some (VObj (obj_of_list (List.concat (map (member_of pairs (ctx_items data))
+                 (stable_sort (fun a b => sltb (fst a) (fst b)) g)))))) w1
+    | Err e => Err e
+    | Panic s => Panic s
+    | OutOfFuel => OutOfFuel
+    | Need q => Need q
+    end.
+  Proof.
+    unfold object_with. fold (ctx_items data). unfold bind at 1.
+    destruct (group_pairs evn (ctx_items data) pairs 0 [] w) as [g w1|e|s| |q]; try reflexivity.
+    unfold bind at 1. erewrite mapM_pure with (g := member_of pairs (ctx_items data)); [reflexivity|].
+    intros [key [p idxs]] w2. unfold member_of, group_arg, denull.
+    destruct (nth_error pairs p) as [[k vn]|]; [|reflexivity].
+    unfold bind. rewrite Hpure. reflexivity.
+  Qed.
+
+  (** the selection of items made by evalObject is the group's items *)
+  Lemma sel_is_group items k s :
+    produces ev items k s ->
+    (if negb (List.length (pair_idxs ev items k s) =? 0) &&
+        negb (List.length (pair_idxs ev items k s) =? List.length items)
+     then map (fun j => nth j items None) (pair_idxs ev items k s)
+     else items) = group_of ev items k s.
+  Proof.
+    intro P. destruct (is_literal k) eqn:Lk.
+    - destruct k; try discriminate. reflexivity.
+    - pose proof (pair_idxs_items ev items k s Lk) as E.
+      destruct (List.length (pair_idxs ev items k s) =? 0) eqn:E0; simpl.
+      + apply Nat.eqb_eq in E0. exfalso.
+        unfold produces in P. rewrite pair_keys_nonlit in P by assumption.
+        apply hits_nonempty with (j := 0) in P. rewrite hits_pair_idxs in P by assumption.
+        destruct (pair_idxs ev items k s); [contradiction|discriminate].
+      + destruct (List.length (pair_idxs ev items k s) =? List.length items) eqn:En; simpl;
+          [|exact E].
+        apply Nat.eqb_eq in En. rewrite <- E.
+        assert (Ei : pair_idxs ev items k s = seq 0 (List.length items)).
+        { assert (Ep : pair_idxs ev items k s =
+                       filter (fun j => is_key (ev k (nth j items None)) s) (seq 0 (List.length items)))
+            by (destruct k; try reflexivity; discriminate).
+          rewrite Ep in *. apply filter_length_all. now rewrite seq_length. }
+        rewrite Ei. now rewrite map_nth_seq.
+  Qed.
+
+  (** object_with_spec: the object has exactly one member per group whose value expression
+      yields a value, that value being the expression evaluated on the array of the group's
+      items in order; absent values are omitted; the result is well formed *)
+  Theorem object_with_spec pairs data w r w' :
+    object_with evn pairs data w = Ok r w' ->
+    w' = w /\
+    exists m, r = Some (VObj m) /\ wf_obj m /\ object_spec ev (ctx_items data) pairs m.
+  Proof.
+    rewrite object_with_unfold.
+    destruct (group_pairs evn (ctx_items data) pairs 0 [] w) as [g w1|e|s| |q] eqn:Eg; try discriminate.
+    intro H. inversion H; subst r w'. clear H.
+    apply (group_pairs_spec evn ev Hpure) in Eg as (-> & HS & _).
+    split; [reflexivity|]. eexists. split; [reflexivity|]. split; [apply obj_of_list_wf|].
+    set (items := ctx_items data) in *.
+    set (sorted := stable_sort (fun a b : string * (nat * list nat) => sltb (fst a) (fst b)) g).
+    assert (Hperm : Permutation sorted g) by apply stable_sort_perm.
+    assert (Hshape : forall e, In e sorted ->
+               member_of pairs items e = [] \/ exists x, member_of pairs items e = [(fst e, x)]).
+    { intros [key [p idxs]] _. unfold member_of. destruct (nth_error pairs p) as [[k vn]|]; [|now left].
+      match goal with |- context [ev vn ?a] => destruct (ev vn a) as [x|] end; [right; eauto|now left]. }
+    assert (NDs : NoDup (map fst sorted)).
+    { eapply Permutation_NoDup; [apply Permutation_sym, Permutation_map, Hperm|].
+      eapply groups_NoDup; eauto. }
+    intros s x. rewrite obj_of_list_last, <- flat_map_concat_map.
+    rewrite later_wins_NoDup by (apply flat_map_keys_NoDup; assumption).
+    rewrite in_flat_map. split.
+    - intros ([key [p idxs]] & Ie & Im).
+      assert (Ig : In (key, (p, idxs)) g) by (eapply Permutation_in; eauto).
+      apply (groups_members _ _ _ _ _ _ _ HS) in Ig as (k & vn & Hn & Hp & Hi).
+      unfold member_of in Im. rewrite Hn in Im. rewrite Hi in Im. cbv zeta in Im.
+      rewrite (sel_is_group items k key Hp) in Im.
+      destruct (ev vn (group_arg (group_of ev items k key))) as [y|] eqn:Ev; [|contradiction].
+      destruct Im as [Im|[]]. inversion Im; subst key y. exists p, k, vn. auto.
+    - intros (p & k & vn & Hn & Hp & Hv).
+      exists (s, (p, pair_idxs ev items k s)). split.
+      + eapply Permutation_in; [apply Permutation_sym; exact Hperm|].
+        apply (groups_members _ _ _ _ _ _ _ HS). eauto.
+      + unfold member_of. rewrite Hn. cbv zeta. rewrite (sel_is_group items k s Hp), Hv. now left.
+  Qed.
+
+  (** the only failures of an object constructor over a pure sub-evaluator are the two key errors *)
+  Theorem object_with_outcome pairs data w :
+    (exists m, object_with evn pairs data w = Ok (Some (VObj m)) w) \/
+    (object_with evn pairs data w = Err (EEval ErrIllegalKey) /\ illegal_key ev (ctx_items data) pairs) \/
+    (object_with evn pairs data w = Err (EEval ErrDuplicateKey) /\ duplicate_key ev (ctx_items data) pairs).
+  Proof.
+    rewrite object_with_unfold.
+    destruct (group_pairs_outcome evn ev Hpure (ctx_items data) pairs w) as [(g & E)|[[E I]|[E D]]];
+      rewrite E; eauto.
+  Qed.
+End ObjectWith.
+
+Print Assumptions group_items_spec.
+Print Assumptions object_with_spec.
+Print Assumptions object_with_outcome.
